@@ -21,6 +21,8 @@ func schedBody(w *runner.W) {
 			panic(err)
 		}
 		defer p.cleanup()
+		vsched.SetCapOverride(sc.Cap)
+		defer vsched.SetCapOverride(0)
 		var got string
 		var gotErr error
 		choose := func(n int, label string) int { return vsched.Choose(n, label, 1) }
